@@ -12,6 +12,7 @@ import gen
 import lexcorr
 import nagarun
 import ocamlbuild
+import parsecorr
 import vcheck
 import wgsltext as W
 
@@ -108,6 +109,25 @@ def metamorphic(ctx, tools, programs, n_edits):
         meta[jid] = (name, "assoc", grouped, base_id)
         jid += 1
         stats["assoc"] += 1
+    # template-list closers (>>, >=, >>= split by the parser) x redundantly parenthesised element counts x spacing of the
+    # closer x trailing comma: the systematic family of lib/c19templ.py (quick: every third pair, rotating with the seed)
+    import c19templ
+    stats["template_close"] = 0
+    tp = c19templ.pairs()
+    if not ctx.thorough:
+        off = ctx.seed % 3
+        tp = [p for k, p in enumerate(tp) if k % 3 == off or "parens:adjacent" in p[3]]
+    canon_ids = {}
+    for name, canon, edited, ekind in tp:
+        if canon not in canon_ids:
+            canon_ids[canon] = jid
+            jobs.append({"id": jid, "src": canon, "want": WANT, "opts": {"digest": True}})
+            meta[jid] = (name, "base", canon, None)
+            jid += 1
+        jobs.append({"id": jid, "src": edited, "want": WANT, "opts": {"digest": True}})
+        meta[jid] = (name, "templ:" + ekind, edited, canon_ids[canon])
+        jid += 1
+        stats["template_close"] += 1
     # token preservation of re-layouts is decided with the implementation's own lexer
     # (its agreement with the model is checked separately)
     res = nagarun.parallel_batches(tools["nagadrive"], "compile", jobs, per_job_timeout=30.0, chunk=24)
@@ -211,13 +231,15 @@ def lexer_inputs(ctx, tools, n_soup, n_bytes, n_layout):
 def run(ctx):
     tools = vcheck.build_harness()
     ok, failed, log = vcheck.proof_step(
-        ctx, "Props/C19.v", ["Lex/LexModel.v", "Lex/LexInst.v", "Lex/LexProofs.v", "Lex/LexSplit.v", "Lex/LexTrivia.v", "Lex/LexFinal.v"],
-        gen_writer=lambda: gen.regenerate(tools, ["lex"]), extra_obligation_files=["Lex/LexInst.v"])
+        ctx, "Props/C19.v", ["Lex/LexModel.v", "Lex/LexInst.v", "Lex/LexProofs.v", "Lex/LexSplit.v", "Lex/LexTrivia.v", "Lex/LexFinal.v",
+                             "Parse/Ast.v", "Parse/ParserModel.v", "Parse/TkFacts.v", "Parse/ParserProofs.v", "Parse/ParserPrint.v", "Parse/ParseInst.v"],
+        gen_writer=lambda: gen.regenerate(tools, ["lex", "parse"]), extra_obligation_files=["Lex/LexInst.v", "Parse/ParseInst.v"])
     ctx.cov["trusted_base"] += [
         "translator: harness/cmd/goextract (go/ast) + gen.py -> coq/Gen/LexTables.v (token kinds, keyword map, unicode.Letter ranges)",
         "extraction: ExtrOcamlBasic only (bool, option, unit, prod, list, sumbool, sumor -> OCaml types); no Extract Constant; Z/positive/nat kept as Coq datatypes; OCaml 4.13.1",
         "correspondence harness: harness/cmd/nagadrive tokens (Go utf8 decoding of the source into runes), ocaml/lex/driver.ml, lib/lexcorr.py",
-        "modelled: wgsl/internal/parser/lexer.go in full; NOT modelled: parser.go, lowering and back ends (covered here only by the metamorphic search on the implementation)",
+        "modelled: wgsl/internal/parser/lexer.go and parser.go in full (coq/Lex, coq/Parse); NOT modelled: lowering and back ends (covered here only by the metamorphic search on the implementation)",
+        "parser correspondence harness: harness/cmd/parsedrive (public API + hooks VerifTokenize/VerifInner, reflection dump), extracted tool parsemodel (coq/Extract/ParseExtract.v), lib/parsecorr.py; switch tables of parser.go regenerated into coq/Gen/ParseTables.v (lib/parsegen.py)",
     ]
     ctx.assumptions = ["WGSL blankspace/line-break sets beyond space, tab, CR, LF are outside the theorems (the lexer treats only these four as blank)"]
     broken = None
@@ -238,6 +260,12 @@ def run(ctx):
         if mism:
             broken = "lexer correspondence (model vs wgsl lexer) fails on %d inputs, first: %s" % (len(mism), mism[0]["what"])
             ctx.cov["first_mismatch"] = {"what": mism[0]["what"], "src": repr(mism[0]["src"][:200])}
+    # parser: the extracted model of parser.go (coq/Parse) against the real parser on the real lexer's tokens
+    if ok:
+        pexe = ocamlbuild.build("parsemodel")
+        pst = parsecorr.run_leg(ctx, tools, pexe)
+        ctx.cov["parser_correspondence"] = pst
+        ctx.cov["traces_validated_against_impl"] = ncmp + pst["compared"]
     # metamorphic search on the implementation (always run; it is also what finds the failing input
     # when a tie is broken)
     progs = nagarun.corpus()
